@@ -488,7 +488,19 @@ fn hist_type(r: &mut Rng, discrete: bool) -> VariableType {
     }
 }
 
-struct Hist { b: ModelBuilder, minted: Vec<Var>, ops: Vec<String>, outs: Vec<String>, tags: Vec<String>, cnames: Vec<String>, linear: bool }
+struct Hist { b: ModelBuilder, minted: Vec<Var>, ops: Vec<String>, outs: Vec<String>, tags: Vec<String>, cnames: Vec<String>, linear: bool, div_by_var: bool }
+
+fn has_var(e: &Exp) -> bool { let mut m = IndexMap::new(); gen_model::count_vars(e, &mut m); !m.is_empty() }
+/// a division whose divisor mentions a variable (the linearizer's error-vs-pruning order on such models is C01's matter)
+fn div_by_var(e: &Exp) -> bool {
+    match e {
+        Exp::Number(_) | Exp::Variable(_) => false,
+        Exp::Abs(x) | Exp::Not(x) | Exp::UnOp(_, x) => div_by_var(x),
+        Exp::Min(es) | Exp::Max(es) | Exp::And(es) | Exp::Or(es) => es.iter().any(div_by_var),
+        Exp::BinOp(BinOp::Div, a, b) => has_var(b) || div_by_var(a) || div_by_var(b),
+        Exp::Xor(a, b) | Exp::Implies(a, b) | Exp::Iff(a, b) | Exp::BinOp(_, a, b) => div_by_var(a) || div_by_var(b),
+    }
+}
 
 impl Hist {
     fn tag(&mut self, t: &str) { if !self.tags.iter().any(|x| x == t) { self.tags.push(t.to_string()); } }
@@ -529,11 +541,20 @@ impl Hist {
         let name = if r.chance(1, 3) { String::new() } else { r.pick(&["c", "d", "cap", "c"]).to_string() + &r.below(3).to_string() };
         self.cnames.push(name.clone());
         let cmps = [Comparison::LessOrEqual, Comparison::GreaterOrEqual, Comparison::Equal, Comparison::Less, Comparison::Greater];
-        let (l, bl) = self.expr(r, 2);
+        let (mut l, mut bl) = self.expr(r, 2);
+        if self.linear && self.minted.len() >= 1 && r.chance(1, 8) {
+            // the one non-linear construct of a linear history: a product of two variables (`NonLinearExpression`)
+            let a = *r.pick(&self.minted); let b2 = *r.pick(&self.minted);
+            l = Exp::BinOp(BinOp::Mul, Box::new(Exp::Variable(a.index.to_string())), Box::new(Exp::Variable(b2.index.to_string())));
+            bl = a * b2;
+            self.tag("product-of-variables");
+        }
+        if div_by_var(&l) { self.div_by_var = true; }
         match r.below(if self.linear { 6 } else { 10 }) {
             0..=5 => {
                 let cmp = if self.linear { cmps[r.below(3)] } else { *r.pick(&cmps) };
                 let (rr, br) = if self.linear { let k = r.range(0, 6) as f64; (Exp::Number(k), Expr::from(k)) } else { self.expr(r, 1) };
+                if div_by_var(&rr) { self.div_by_var = true; }
                 self.tag("bc-new");
                 (sx_bc(&name, cmp, &l, &rr, false), BuilderConstraint::new(bl, cmp, br, name))
             }
@@ -545,6 +566,7 @@ impl Hist {
                 // the fields are public: an assertion flag next to an arbitrary comparison / right-hand side
                 let cmp = *r.pick(&cmps);
                 let (rr, br) = self.expr(r, 1);
+                if div_by_var(&rr) { self.div_by_var = true; }
                 let a = r.chance(2, 3);
                 self.tag(if a { "bc-raw-assert" } else { "bc-raw" });
                 (sx_bc(&name, cmp, &l, &rr, a), BuilderConstraint { name, lhs: bl, constraint_type: cmp, rhs: br, is_logic_assertion: a })
@@ -606,6 +628,7 @@ impl Hist {
                     self.tag(if picks.is_empty() { "sum-empty" } else { "sum" });
                     (e, be)
                 } else { self.expr(r, 2) };
+                if div_by_var(&e) { self.div_by_var = true; }
                 let max = r.chance(1, 2);
                 self.ops.push(format!("({} {})", if max { "maximize" } else { "minimize" }, sx::exp(&e)));
                 self.outs.push("(unit)".into());
@@ -635,7 +658,7 @@ fn random_milp(r: &mut Rng) -> MILPValue {
 
 fn history_cases(r: &mut Rng) -> Vec<Case> {
     let linear = r.chance(2, 5);
-    let mut h = Hist { b: ModelBuilder::new(), minted: vec![], ops: vec![], outs: vec![], tags: vec!["history".into()], cnames: vec![], linear };
+    let mut h = Hist { b: ModelBuilder::new(), minted: vec![], ops: vec![], outs: vec![], tags: vec!["history".into()], cnames: vec![], linear, div_by_var: false };
     if linear { h.tag("linear-history"); }
     let span = if r.chance(1, 6) { 24 } else { 9 };
     let n = 2 + r.below(span);
@@ -682,11 +705,22 @@ fn history_cases(r: &mut Rng) -> Vec<Case> {
     c.tags = h.tags.clone();
     c.nontrivial = true;
     c.show = show.clone();
+    let section = if h.linear { "solution" } else { "readback" };
     match solved {
+        // arbitrary expression trees (several hostile constructs at once): which error the linearizer reports first is C01's
+        // matter; the `solve_with` glue (linearize first, its error wins) is diffed on the linear histories, where the only
+        // non-linear construct is an injected product of variables
+        Ok(Err(_)) if !h.linear => { c.tags.push("not-linearizable-undiffed".into()); c.req = head_req.clone(); c.imp = format!("(ok {})", head_imp); }
+        Ok(_) if h.div_by_var => {
+            // a division by an expression with variables: whether the linearizer reports `NonLinearExpression` or prunes the row
+            // first is the business of C01's model; the `solve_with` glue is not diffed on such a history
+            c.tags.push("solve-diff-skipped-div-by-variable".into());
+            c.req = head_req.clone(); c.imp = format!("(ok {})", head_imp);
+        }
         Ok(Ok(sol)) => {
             c.tags.push("readback-canned".into());
             if q_handles.iter().any(|i| sol.var_value(Var { index: *i }).is_none()) { c.tags.push("var-value-none".into()); }
-            c.req = format!("{} (solution {} {})", head_req, sx_sol(&canned), queries);
+            c.req = format!("{} ({} {} {})", head_req, section, sx_sol(&canned), queries);
             c.imp = format!("(ok {} {})", head_imp, readback(&sol));
         }
         Ok(Err(BuilderError::Linearization(e))) => {
